@@ -462,7 +462,7 @@ func (tf *transformer) transformAsm(args []string) ([]string, error) {
 						return nil, err
 					}
 					if flagDebugDir != "" {
-						debugArtifacts.GarbledFiles[basename] = content
+						debugArtifacts.GarbledFiles[basename] = bytes.Clone(content) // content aliases a reused buffer
 					}
 					newHeaderPaths[includePath] = newPath
 				}
@@ -500,7 +500,7 @@ func (tf *transformer) transformAsm(args []string) ([]string, error) {
 			newPaths = append(newPaths, path)
 		}
 		if flagDebugDir != "" {
-			debugArtifacts.GarbledFiles[basename] = content
+			debugArtifacts.GarbledFiles[basename] = bytes.Clone(content) // content aliases a reused buffer
 		}
 	}
 	if err := saveDebugArtifactsForPkg(tf.curPkg, debugCacheKindAsm, debugArtifacts); err != nil {
@@ -882,7 +882,7 @@ func (tf *transformer) transformCompile(args []string) ([]string, error) {
 			newPaths = append(newPaths, path)
 		}
 		if flagDebugDir != "" {
-			debugArtifacts.GarbledFiles[basename] = src
+			debugArtifacts.GarbledFiles[basename] = bytes.Clone(src) // src aliases printFile's reused buffer
 		}
 	}
 	if tf.curPkg.ImportPath == "runtime" && flagTiny {
